@@ -421,9 +421,12 @@ def run(ctx):
     ctx.assume("flow values are the integers 0..n-1, so outputs identify input positions")
     th = "_thorough" if ctx.thorough else ""
     # ---- design level, and spec -> code exports (side by side)
-    jobs = [tlcpar.mc("Slice", "Slice_mc.cfg", ("Start", "Skip", "Fill", "Lag", "Drain", "Emit", "Collect", "ISlice")),
-            tlcpar.mc("Iterators", "Iterators_mc.cfg", ("ARevPop", "AChunkSlide", "AChainStep", "ACountStep")),
-            tlcpar.mc("SliceUse", "SliceUse%s_mc.cfg" % th, ("UStart", "UNextOf", "UFill")),
+    w = ctx.nworkers
+    jobs = [tlcpar.mc("Slice", "Slice_mc.cfg", ("Start", "Skip", "Fill", "Lag", "Drain", "Emit", "Collect", "ISlice"),
+                      workers=max(2, 3 * w // 4)),
+            tlcpar.mc("Iterators", "Iterators_mc.cfg", ("ARevPop", "AChunkSlide", "AChainStep", "ACountStep"),
+                      workers=max(2, w // 4)),
+            tlcpar.mc("SliceUse", "SliceUse%s_mc.cfg" % th, ("UStart", "UNextOf", "UFill"), workers=max(2, w // 4)),
             tlcpar.export("Slice", "Slice_export.cfg", 1000),
             tlcpar.export("Iterators", "Iterators_export.cfg", 100),
             tlcpar.export("SliceUse", "SliceUse%s_export.cfg" % th, 100)]
